@@ -89,7 +89,28 @@ func envelope(flags byte, payload []byte) []byte {
 	return append(out, payload...)
 }
 
+// valueMode "limits" draws message sizes at and around the buffer limit, and highly compressible ones.
+var valueMode = ""
+
 func randValue(rng *rand.Rand, maxMsg int) []byte {
+	if valueMode == "limits" {
+		switch rng.IntN(7) {
+		case 0:
+			return randBytes(rng, max(0, maxMsg-1), nil)
+		case 1:
+			return randBytes(rng, maxMsg, nil)
+		case 2:
+			return randBytes(rng, maxMsg+1, nil)
+		case 3:
+			return randBytes(rng, maxMsg/2, nil) // hexa doubles it to exactly the limit (for even limits)
+		case 4:
+			return randBytes(rng, maxMsg/2+1, nil)
+		case 5: // compression bomb: a few bytes on the wire, up to 1000:1 when inflated
+			return bytesRepeat(byte('a'+rng.IntN(3)), maxMsg*(2+rng.IntN(60)))
+		default:
+			return randBytes(rng, rng.IntN(6), nil)
+		}
+	}
 	switch rng.IntN(8) {
 	case 0:
 		return nil
@@ -927,6 +948,19 @@ func genScenario(e *Emitter, rng *rand.Rand) *Scenario {
 }
 
 func init() {
+	streams["limits"] = func(e *Emitter, rng *rand.Rand, tier string) {
+		n := 800
+		if tier == "thorough" {
+			n = 20000
+		}
+		valueMode = "limits"
+		defer func() { valueMode = "" }()
+		for i := 0; i < n; i++ {
+			sc := genScenario(e, rng)
+			raw, _ := json.Marshal(sc)
+			e.Emit("e2e " + hex.EncodeToString(raw))
+		}
+	}
 	streams["getpost"] = streamGetPost
 	executors["e2e_getpost"] = func(a []string) string {
 		return executors["e2e"]([]string{a[0]}) + " ## " + executors["e2e"]([]string{a[1]})
